@@ -628,10 +628,15 @@ B2JOBS.append(dict(name='result_formulas', mode='real', functions=['mc_result_va
                    property_file='specs/C13.smt2', props=['C02', 'C13'],
                    assumptions=['B2r: floating-point arithmetic treated as real arithmetic for the formula identities (rounding is C14\'s subject)']))
 
+B2JOBS.append(dict(name='create_result_formulas', mode='real', functions=['create_result'],
+                   out_struct={'create_result': ('mc_result_ctor5', [('size_t', 'calls_'), ('size_t', 'non_zero_calls_'), ('size_t', 'finite_calls_'), ('T', 'sum_'), ('T', 'sum_of_squares_')])},
+                   property_file='specs/C13_create.smt2', props=['C13', 'C12'],
+                   assumptions=['B2r: floating-point arithmetic treated as real arithmetic for the formula identities; the integer sub-expressions keep their no-wrap side conditions']))
+
 NATIVEJOBS = []
 
 REPLAYS = {'c16_tiling': dict(cpp='c16', link_fragments=[f for f in sorted(FRAGMENTS) if f.startswith('mpi_')]),
            'invoke_nodist': 'invoke', 'invoke_dist': 'invoke',
-           'usage_enumeration': 'usage', 'refine_weights': 'refine_weights', 'result_formulas': 'result', 'callback_decision': 'callback', 'weighted_with_variance': 'callback', 'chkpt_rollback': 'chkpt', 'chkpt_add': 'chkpt', 'chkpt_generator': 'chkpt',
+           'usage_enumeration': 'usage', 'refine_weights': 'refine_weights', 'result_formulas': 'result', 'create_result_formulas': 'create_result', 'callback_decision': 'callback', 'weighted_with_variance': 'callback', 'chkpt_rollback': 'chkpt', 'chkpt_add': 'chkpt', 'chkpt_generator': 'chkpt',
            'discrete_ctor': 'discrete', 'discrete_call': 'discrete', 'discrete_select': 'discrete', 'partial_sum': 'discrete',
            'c05_': dict(cpp='c05', no_inputs_needed=True)}
